@@ -231,20 +231,13 @@ func (c *Ctx) c02Ownership() {
 			lib = append(lib, s)
 		}
 	}
-	if len(lib) != 1 || fkey(lib[0].Parent()) != "(*Server).serve" {
-		R.Fail("C02.R1", "session-writer", "-", "exactly one buffer.NewWriter call exists in package wire, in serve", sprintf("%d NewWriter call sites in package wire", len(lib)))
+	region := c.serveRegion()
+	if len(lib) != 1 || !region[lib[0].Parent()] {
+		R.Fail("C02.R1", "session-writer", "-", "exactly one buffer.NewWriter call exists in package wire, on serve's path before the command loop", sprintf("%d NewWriter call sites in package wire", len(lib)))
 	} else {
-		arg := core.Strip(lib[0].Common().Args[1])
-		if mi, ok := arg.(*ssa.MakeInterface); ok {
-			arg = core.Strip(mi.X)
-		}
-		ok := false
-		if ex, isEx := arg.(*ssa.Extract); isEx {
-			if call, isCall := ex.Tuple.(*ssa.Call); isCall && core.MethodIs(core.StaticCallee(call), pkWire, "Server", "Handshake") && ex.Index == 0 {
-				ok = true
-			}
-		}
-		R.Check(ok, "C02.R1", "session-writer:wraps-handshake-conn", c.at(lib[0]), "the session writer writes directly to the connection returned by Handshake (no buffering layer in between)", "argument is result #0 of Server.Handshake", "the writer's sink is not the connection returned by Handshake")
+		hs := c.P.Method("wire", "Server", "Handshake")
+		ok := hs != nil && c.flowsFromCallResult(lib[0].Common().Args[1], hs, 0, 0)
+		R.Check(ok, "C02.R1", "session-writer:wraps-handshake-conn", c.at(lib[0]), "the session writer writes directly to the connection returned by Handshake (no buffering layer in between)", "argument is result #0 of Server.Handshake (directly or handed down through parameters)", "the writer's sink is not the connection returned by Handshake")
 	}
 
 	// (e) the connection's writer / reader / conn never cross into another goroutine
